@@ -130,11 +130,12 @@ def commit (s : State) (t : Nat) : State × Out :=
 
 def rollback (s : State) (t : Nat) : State × Out := (close s t, .ok)
 
-/-- `Close`+`Open`: committed state kept, open transactions gone.  In a fresh process the clock
-    restarts at the newest committed stamp (only the order of stamps is observable). -/
+/-- `Close`+`Open`: committed state kept, open transactions gone.  The clock is never below the
+    newest committed stamp; in a fresh process it restarts there (only the order of stamps is
+    observable). -/
 def reopen (s : State) (fresh : Bool) : State × Out :=
   let top := (s.dom.filterMap (fun k => (committed s k).map (·.stamp))).foldl max 1
-  ({ s with open_ := [], clock := if fresh then top else s.clock }, .ok)
+  ({ s with open_ := [], clock := max (if fresh then 0 else s.clock) top }, .ok)
 
 def step (s : State) : Op → State × Out
   | .begin t l => begin s t l
